@@ -477,6 +477,23 @@ class Lib(Interp):
                               z3.IntVal(FIN))))
         return SV("float", k=simp(k), r=simp(z3.If(neg, -mag_r, mag_r)))
 
+    def m_fmod(self, args, kwargs):
+        """C fmod: exact remainder with the sign of the dividend; ValueError for inf % x and x % 0"""
+        a, b = self._mfloat(args[0]), self._mfloat(args[1])
+        p = self.p
+        if p.fork(z3.Or(a.k == NAN, b.k == NAN)):
+            return s_float(NAN, 0)
+        if p.fork(z3.Or(self._inf(a), self.is_zero(b))):
+            raise PyExc("ValueError", None, "math domain error")
+        if p.fork(self._inf(b)):
+            return a
+        q = trunc_real(a.r / b.r)
+        x = simp(a.r - b.r * z3.ToReal(q))
+        zk = z3.If(self.is_neg(a), z3.IntVal(NZERO), z3.IntVal(FIN))
+        if p.fork(x == 0):
+            return SV("float", k=simp(zk), r=z3.RealVal(0))
+        return SV("float", k=z3.IntVal(FIN), r=x)      # fmod is exact in binary64
+
     def m_fabs(self, args, kwargs):
         return self.b_abs([self._mfloat(args[0])], {})
 
